@@ -271,6 +271,7 @@ def strata():
         gen_cfg.model_and_spec(want_mc=True, force=['many_provides']),
         gen_cfg.model_and_spec(want_mc=True, force=['shadow_ns']),
         gen_cfg.model_and_spec(want_mc=True, force=['dict_names']),
+        gen_cfg.model_and_spec(force=['big'], want_mixed=True),
         gen_cfg.model_and_spec(force=['one_way_itf', 'many_ports'], prov_sem='MTS', want_mixed='MS'),
         gen_cfg.model_and_spec(force=['dict_names', 'many_ports'], want_mixed=True),
         gen_cfg.model_and_spec(want_mc=True, force=['inout_mix', 'out_many_formals']),
